@@ -187,7 +187,10 @@ func (c *client) Execute(
 		StepID: stepData.ID,
 		Config: stepData.InputData,
 	}
-	cborReader := c.decMode.NewDecoder(c.rawAtpChannels)
+	// Always read through the client's one decoder. A CBOR decoder reads ahead: a second decoder on the same
+	// channel would start wherever the first one's buffer happened to end, and whatever the first one had already
+	// pulled from the channel (for example an unsolicited message trailing the last result) would be lost.
+	cborReader := c.decoder
 	if c.atpVersion > 1 {
 		// Wrap it in a runtime message.
 		workStartMsg = RuntimeMessage{RunID: stepData.RunID, MessageID: MessageTypeWorkStart, MessageData: workStartMsg}
